@@ -335,7 +335,12 @@ func (l *Lifter) brBlock(stmts []ast.Stmt, cur *rcur, counts map[string]*countVa
 				d := l.depth
 				raw := CanonOperand(x.X)
 				over := l.op(x.X)
-				l.pushRename(raw+"["+id.Name+"]", fmt.Sprintf("$v%d", d))
+				if keyShadows(x.X, id) {
+					// for i := range m[i]: m[i][i] in the body is not the element
+					l.pushRename("\x00\x00shadowed", fmt.Sprintf("$v%d", d))
+				} else {
+					l.pushRename(raw+"["+id.Name+"]", fmt.Sprintf("$v%d", d))
+				}
 				inner := &rcur{base: cur.base, at: cur.at, checkedVars: cur.checkedVars}
 				// bulk check: len(over)*w bytes proven before the loop
 				per := 0
@@ -930,7 +935,11 @@ func (l *Lifter) srBlock(stmts []ast.Stmt, counts map[string]*countVar, limited 
 			if id, ok := x.Key.(*ast.Ident); ok && x.Value == nil {
 				l.depth++
 				d := l.depth
-				l.pushRename(CanonOperand(x.X)+"["+id.Name+"]", fmt.Sprintf("$v%d", d))
+				if keyShadows(x.X, id) {
+					l.pushRename("\x00\x00shadowed", fmt.Sprintf("$v%d", d))
+				} else {
+					l.pushRename(CanonOperand(x.X)+"["+id.Name+"]", fmt.Sprintf("$v%d", d))
+				}
 				over := l.op(x.X)
 				body := l.srBlock(x.Body.List, counts, limited, false)
 				l.popRenames(1)
@@ -1100,3 +1109,17 @@ func dispatchAsLoop(stmts []ast.Stmt, i int, isTag func(ast.Expr) bool) ([]ast.S
 }
 
 func isReturnStmt(s ast.Stmt) bool { _, ok := s.(*ast.ReturnStmt); return ok }
+
+
+// keyShadows: the operand of a key-only range mentions a variable spelled
+// like the key, which the key then shadows inside the body.
+func keyShadows(x ast.Expr, key *ast.Ident) bool {
+	shadows := false
+	ast.Inspect(x, func(k ast.Node) bool {
+		if kid, ok := k.(*ast.Ident); ok && kid.Name == key.Name {
+			shadows = true
+		}
+		return true
+	})
+	return shadows
+}
